@@ -446,6 +446,15 @@ def run(ck, F, E):
 
     print_separator_rule(ck, F)
     if_skip_rule(ck, F)
+    redefinition_rule(ck, F)
+    # what a program prints depends on what its expressions evaluate to: the operator semantics rules of C02 (comparison of
+    # strings by content, arithmetic, truthiness) are necessary conditions of this property as well
+    import framework
+    from props import C02
+    rk = framework.Rekeyed(ck, "C02", "C03:EXPR")
+    C02.equality(rk, F)
+    C02.truthiness(rk, F)
+    C02.logical(rk, F)
 
     # ---- (8)
     C06.resume_rule(ck, F, "C03")
@@ -504,6 +513,31 @@ def print_separator_rule(ck, F):
                "%d trips: the semicolon trip sets the flag, the %d others clear it" % (len(trips), len(trips) - len(semi)),
                "evaluate_print_statement: %s -- a PRINT whose last separator is not a semicolon loses its line feed (or one that ends "
                "in a semicolon gets one)" % why, b.span)
+
+
+def redefinition_rule(ck, F):
+    """DEF FN with dynamic semantics: executing a second DEF of a name replaces the first (body location and parameter list).
+    Every successful path of Program::define_function overwrites the table entry -- `HashMap::insert`, or `entry().and_modify(..)
+    .or_insert(..)` -- not `entry().or_insert(..)` / `try_insert`, which keep the first definition for the rest of the run."""
+    b = get_fn(ck, F, "Program::define_function")
+    if b is None:
+        return
+    bad = []
+    n = 0
+    for r in path_records(b):
+        if r["outcome"] != "Ok" and not (r["outcome"] is None and not any(c.callee.endswith("from_residual") for c in r["calls"])):
+            continue
+        n += 1
+        nm = [c.callee.split("::")[-1] for c in r["calls"]]
+        overwrites = "insert" in nm or ("and_modify" in nm and ("or_insert" in nm or "or_insert_with" in nm)) or "get_mut" in nm
+        keeps_first = ("or_insert" in nm or "or_insert_with" in nm or "try_insert" in nm or "or_default" in nm) and "and_modify" not in nm \
+            and "insert" not in nm
+        if keeps_first or not overwrites:
+            bad.append(",".join(x for x in nm if x in ("entry", "or_insert", "or_insert_with", "try_insert", "insert", "contains_key")) or "no table update")
+    ck.require(n > 0 and not bad, "C03:DEF:last-definition-wins", "DEF FN",
+               "every successful path of define_function overwrites the entry for the name",
+               "Program::define_function does not overwrite an existing definition (%s): after a second DEF of the same name the "
+               "program goes on calling the first body with the first parameter list" % "; ".join(sorted(set(bad))), b.span)
 
 
 def if_skip_rule(ck, F):
